@@ -27,6 +27,13 @@ type Scenario interface {
 	Key() string
 }
 
+// Finalizer is an optional extension: Final runs once after the last operation of a
+// transition (never after the replayed prefix), so it may probe the implementation
+// destructively; whatever it changes is not part of any successor.
+type Finalizer interface {
+	Final() (obs string, violation string)
+}
+
 type Violation struct {
 	Path []int    `json:"path"`
 	Ops  []string `json:"ops"`
@@ -121,6 +128,15 @@ func Explore(sc Scenario, opt Options) *Result {
 				obs, viol := sc.Apply(op)
 				res.Applies++
 				res.Transitions++
+				var key string
+				if viol == "" {
+					key = sc.Key()
+					if f, ok := sc.(Finalizer); ok {
+						o2, v2 := f.Final()
+						obs += o2
+						viol = v2
+					}
+				}
 				res.Obs[obs] = struct{}{}
 				if viol != "" {
 					cls := viol
@@ -140,7 +156,7 @@ func Explore(sc Scenario, opt Options) *Result {
 					}
 					continue
 				}
-				k := sc.Key()
+				k := key
 				if _, ok := seen[k]; ok {
 					continue
 				}
@@ -174,6 +190,10 @@ func Replay(sc Scenario, path []int) string {
 		if _, v := sc.Apply(o); v != "" {
 			return v
 		}
+	}
+	if f, ok := sc.(Finalizer); ok {
+		_, v := f.Final()
+		return v
 	}
 	return ""
 }
